@@ -11,7 +11,8 @@ Every translated C function f becomes, in namespace Gen,
                              CBOR_ASSERT conditions.
 
 Scalars  : uintN_t/size_t -> UIntN (wrapping);  int/int8_t -> Int (+ side conditions);  bool -> Bool;
-           float/double  -> UInt32/UInt64 bit patterns (only moved, punned through the helper unions, isnan)
+           float/double  -> UInt32/UInt64 bit patterns (moved, punned through same-width unions, isnan, widened with Prelude.f32ToF64,
+                            compared with ==/!= as IEEE values C.feq32/64; any other floating operation is Unsupported)
 Pointers : const unsigned char* p -> (p : Array UInt8) (p_off : Nat); read  p.getD (off+k) 0 + bounds obligation
            unsigned char* buf     -> (buf : Array UInt8) (buf_off : Nat) threaded; write setIfInBounds + obligation
            struct T* out-param    -> value in, value out;   uintN_t* -> value in, value out
@@ -63,6 +64,15 @@ def ctype(t):
     raise Unsupported('type ' + q)
 
 
+def float_ptr(tj):
+    """'f32' / 'f64' if the C type is `float *` / `double *` (qualifiers ignored), else None.  Such a type is only ever accepted as the
+    result of reinterpreting `item->data` (BitCast) or as the type of a local alias of that; it is deliberately not a `ctype`."""
+    q = tj.get('desugaredQualType', tj.get('qualType')) if isinstance(tj, dict) else tj
+    q = re.sub(r'\s+', ' ', re.sub(r'\b(const|volatile|restrict)\b', '', q or '')).strip()
+    return {'float *': 'f32', 'double *': 'f64'}.get(q)
+
+
+def is_float(t): return t in ('f32', 'f64')
 def is_unsigned(t): return t in ('u8', 'u16', 'u32', 'u64')
 def is_signed(t): return t in ('i8', 'i16', 'i32', 'i64')
 
@@ -301,6 +311,11 @@ class Translator:
             if p_['kind'] != 'ParmVarDecl': continue
             t = ctype(p_['type'])
             if t == 'sptr:cbor_item_t': ps.append('(%s : ItemRec)' % p_['name'])
+            elif t == 'ptr':
+                q = p_['type'].get('qualType', '')
+                has_item = any(self.is_item_param(x) for x in decl.get('inner', []) if x['kind'] == 'ParmVarDecl')
+                handle = has_item and not ('const' in q or q == 'cbor_data')      # same rule as function1
+                ps.append('(%s : Array UInt8)' % p_['name'] if handle else '(%s : Array UInt8) (%s_off : Nat)' % (p_['name'], p_['name']))
             elif t in LEAN_T and t != 'unit': ps.append('(%s : %s)' % (p_['name'], LEAN_T[t]))
             else: raise Unsupported('parameter type ' + t)
         P = ' '.join(ps)
@@ -346,7 +361,14 @@ class Translator:
         return st.structs[key][flat]
 
     def item_write(self, key, path, v, st, fn):
-        if path == ('data',): raise Unsupported('store to item->data (the pointer itself)')
+        if path == ('data',):
+            # `item->data = p`: only for p a byte-pointer *parameter* of this function, unmodified (offset 0).  From here on `data` of the
+            # record is the byte sequence p points to.  Value semantics stays exact because neither name can be stored through afterwards:
+            # p is not a store buffer (`store through read-only pointer`), and stores through item->data are refused below (set_bytes).
+            if v.t != 'ptr' or getattr(v, 'handle', None) is None or v.off != '0':
+                raise Unsupported('store to item->data of anything but a byte-pointer parameter')
+            st.structs[key]['data'] = V(v.handle, 'bytes'); st.structs[key]['__alias'] = V(v.handle, 'alias')
+            fn.stored.add(key); return
         flat, t = self.item_field(key, path, st, True)
         v = self.conv(v, t, st)
         if path == ('type',):
@@ -363,7 +385,7 @@ class Translator:
         if not ch: return base
         return '{ %s with %s }' % (base, ', '.join(ch))
 
-    WIDE = {'u16': 2, 'u32': 4, 'u64': 8}
+    WIDE = {'u16': 2, 'u32': 4, 'u64': 8, 'f32': 4, 'f64': 8}    # f32 / f64: the IEEE-754 bit pattern is what is loaded / stored
 
     def wide_read(self, p, st):
         """`*(uintN_t*)q` with q a byte pointer: the N/8 bytes at q, assembled in host (little-endian) order"""
@@ -392,6 +414,8 @@ class Translator:
 
     def set_bytes(self, p, e, st, fn):
         if getattr(p, 'item', None) is not None:
+            if '__alias' in st.structs[p.item]:
+                raise Unsupported('store through item->data after it was set to a pointer parameter (the two names alias)')
             nn = fn.gensym(p.item + '_data'); st.pending.append((nn, e))
             st.structs[p.item]['data'] = V(nn, 'bytes'); fn.stored.add(p.item); return
         if p.base not in st.bufs: raise Unsupported('store through read-only pointer')
@@ -411,6 +435,9 @@ class Translator:
             return r
         if to == 'i32b':
             return V(self.conv(v, 'bool', st).lean, 'i32b')
+        if f == 'f32' and to == 'f64':
+            # C11 6.3.1.5p1: float -> double is value preserving; on bit patterns: Prelude.f32ToF64 (NaN: what x86-64 cvtss2sd produces)
+            return V('(Prelude.f32ToF64 %s)' % L, 'f64')
         if f in ('f32', 'f64') or to in ('f32', 'f64'):
             raise Unsupported('floating conversion %s -> %s' % (f, to))
         n = lit_val(v)
@@ -486,16 +513,29 @@ class Translator:
                     if tt == 'ptr' or tt == 'voidp':
                         if v.t != 'ptr': raise Unsupported('cast of a wide pointer back to a byte pointer')
                         return v
-                    if tt is not None and tt.startswith('sref:') and tt[5:] in self.WIDE and v.t == 'ptr':
-                        w = V(v.lean, 'wptr:' + tt[5:], base=v.base, off=v.off)
+                    wt = tt[5:] if tt is not None and tt.startswith('sref:') else float_ptr(e['type'])
+                    if wt in self.WIDE and v.t == 'ptr':
+                        w = V(v.lean, 'wptr:' + wt, base=v.base, off=v.off)
                         if getattr(v, 'item', None) is not None: w.item = v.item
                         return w
                     raise Unsupported('pointer cast to ' + e['type'].get('qualType', '?'))
                 return v
             if ck == 'FloatingCast':
-                v = self.expr(sub, st, fn)
-                # only float -> double promotion for isnan() is tolerated (argument of C.isNaN keeps its width)
-                return V(v.lean, v.t)
+                return self.conv(self.expr(sub, st, fn), ctype(e['type']), st)     # float -> double only (conv); narrowing is Unsupported
+            if ck == 'IntegralToFloating':
+                # only integer *constants* that the target type represents exactly (|n| < 2^24 / 2^53): the bit pattern is computed here
+                lit_e = sub
+                while lit_e['kind'] == 'ParenExpr': lit_e = lit_e['inner'][0]
+                neg = lit_e['kind'] == 'UnaryOperator' and lit_e.get('opcode') == '-'
+                if neg: lit_e = lit_e['inner'][0]
+                if lit_e['kind'] != 'IntegerLiteral': raise Unsupported('conversion of a non-literal integer to a floating type')
+                n = -int(lit_e['value']) if neg else int(lit_e['value'])
+                t = ctype(e['type'])
+                if t not in ('f32', 'f64') or abs(n) >= (2 ** 24 if t == 'f32' else 2 ** 53):
+                    raise Unsupported('integer constant %d to %s' % (n, t))
+                import struct
+                bits = struct.unpack('<I', struct.pack('<f', float(n)))[0] if t == 'f32' else struct.unpack('<Q', struct.pack('<d', float(n)))[0]
+                return lit(bits, t)
             if ck == 'ToVoid':
                 self.expr(sub, st, fn); return V('()', 'unit')
             raise Unsupported('cast ' + ck)
@@ -556,6 +596,7 @@ class Translator:
                 raise Unsupported('address-of')
             if op == '-':
                 v = self.expr(sub, st, fn)
+                if is_float(v.t): raise Unsupported('floating-point negation')
                 if is_signed(v.t):
                     n = lit_val(v)
                     if n is not None: return lit(-n, v.t)
@@ -578,6 +619,7 @@ class Translator:
             if op in ('++', '--'):
                 # value of x++ / ++x used as an expression
                 cur = self.expr(sub, st, fn)
+                if is_float(cur.t): raise Unsupported('floating-point increment / decrement')
                 one = lit(1, cur.t)
                 o = '+' if op == '++' else '-'
                 if is_signed(cur.t): st.obl.append('C.fitsS %d (%s %s 1)' % (BITS[cur.t], cur.lean, o))
@@ -722,6 +764,13 @@ class Translator:
         if b.t == 'i32b': b = self.conv(b, 'i32', st)
         if a.t == 'bool': a = self.conv(a, 'i32', st)
         if b.t == 'bool': b = self.conv(b, 'i32', st)
+        if is_float(a.t) or is_float(b.t):
+            # values of floating type are bit patterns here: no arithmetic, no ordering.  `==` / `!=` of two values of the same type is the
+            # IEEE-754 comparison, exact on bit patterns: a NaN is unequal to everything (itself included), +0 equals -0 (C.feq32 / C.feq64)
+            if op in ('==', '!=') and a.t == b.t:
+                r = '(C.feq%s %s %s)' % (a.t[1:], a.lean, b.lean)
+                return V(r if op == '==' else '(!%s)' % r, 'i32b')
+            raise Unsupported('floating-point operation %s' % op)
         if a.t == 'ptr' and op == '+': return self.padd(a, b, st)
         if a.t == 'table' and op == '+' and (is_unsigned(b.t) or is_signed(b.t)):
             return V(a.lean, 'tableelt', base=a, off=b)      # address of element b of a constant table; see unary `*`
@@ -809,6 +858,12 @@ class Translator:
             v = self.expr(args[0], st, fn)
             if v.t not in ('f32', 'f64'): raise Unsupported('isnan on ' + v.t)
             return V('(C.isNaN%s %s)' % ('32' if v.t == 'f32' else '64', v.lean), 'i32b')
+        if name in ('__builtin_nanf', '__builtin_nan'):
+            # the macro NAN: `__builtin_nanf("")` — the positive quiet NaN with empty payload (clang folds it to this constant)
+            a0 = args[0]
+            while a0['kind'] in ('ImplicitCastExpr', 'ParenExpr') and a0.get('inner'): a0 = a0['inner'][0]
+            if a0['kind'] != 'StringLiteral' or a0.get('value') != '""': raise Unsupported('NaN with a payload string')
+            return lit(0x7FC00000, 'f32') if name == '__builtin_nanf' else lit(0x7FF8000000000000, 'f64')
         if name == '__verif_assert':
             c = self.cond(args[0], st, fn); st.obl.append(c); return V('()', 'unit')
         if name == '__builtin_unreachable':
@@ -831,6 +886,8 @@ class Translator:
                 if v.t != 'ptr' or getattr(v, 'item', None) is not None: raise Unsupported('pointer argument')
                 largs.append(st.bufs.get(v.base, v.base)); largs.append(v.off)
                 if sig['bufparam'] == pn: post.append(('buf', v.base))
+            elif pt == 'hptr':
+                raise Unsupported('call of a function whose byte-pointer parameter becomes item->data')
             elif pt == 'item':
                 if v.t != 'sptr:cbor_item_t' or v.lean not in st.structs or st.structs[v.lean].get('__type') != '__item':
                     raise Unsupported('item argument that is not an item parameter')
@@ -917,6 +974,10 @@ class Translator:
             b = self.strip(t['inner'][0])
             if b['kind'] != 'DeclRefExpr': raise Unsupported('assignment to nested member')
             n = b['referencedDecl']['name']
+            if n in st.vars and st.vars[n].t == 'unionval':
+                # store into a member of a pun union (validated at its declaration): the union now holds the bit pattern of the value
+                v = self.conv(v, ctype(t['type']), st)
+                nn = fn.gensym(n); st.pending.append((nn, v.lean)); st.vars[n] = V(nn, 'unionval'); return
             if n in st.vars and st.vars[n].t.startswith('sptr:'): n = st.vars[n].lean
             if n not in st.structs: raise Unsupported('assignment to member of ' + n)
             ty = st.structs[n][t['name']].t
@@ -965,11 +1026,21 @@ class Translator:
             if z != 0: raise Unsupported('do-while loop')
             return self.stmt(body, st, fn, k)
         if kind == 'DeclStmt':
+            local_pun = False
             for d in s['inner']:
+                if d['kind'] == 'RecordDecl' and d.get('tagUsed') == 'union' and d.get('completeDefinition'):
+                    # `union { float f; uint32_t u; } h = ...`: a union declared on the spot, accepted when it is a pure bit-pattern pun (pun_union)
+                    self.pun_union([(f['name'], f['type']) for f in d.get('inner', []) if f['kind'] == 'FieldDecl'])
+                    local_pun = True; continue
                 if d['kind'] != 'VarDecl': raise Unsupported('declaration ' + d['kind'])
-                t = ctype(d['type'])
+                t = ('sref:' + float_ptr(d['type'])) if float_ptr(d['type']) else ctype(d['type'])
                 init = [x for x in d.get('inner', []) if not x['kind'].endswith('Attr')]
                 if t.startswith('union:'):
+                    # a union value is ONE bit pattern, read and written through any member: exact only if all members are scalars of one width
+                    if t[6:] in self.structs: self.pun_union(self.structs[t[6:]])
+                    elif not (local_pun and 'unnamed' in t): raise Unsupported('union ' + t[6:])
+                    if not init or self.strip(init[0])['kind'] != 'InitListExpr' or len(self.strip(init[0]).get('inner', [])) != 1:
+                        raise Unsupported('union without a one-member initialiser')
                     i0 = self.strip(init[0])
                     v = self.expr(i0['inner'][0], st, fn)
                     st.vars[d['name']] = V(v.lean, 'unionval')
@@ -1060,6 +1131,18 @@ class Translator:
         if kind == 'BreakStmt':
             raise Unsupported('break outside switch tail position')
         raise Unsupported('statement ' + kind)
+
+    def pun_union(self, fields):
+        """all members are scalars of one width whose values are modelled by their bit pattern (float / uint32_t, double / uint64_t): reading
+        a member other than the one last stored reinterprets the object representation (C11 6.5.2.3, footnote 95) = the same bit pattern"""
+        ts = set()
+        for f, ft in fields:
+            try:
+                ts.add(ctype(ft))
+            except Unsupported:
+                ts.add('?')
+        if not ts or not (ts <= {'u32', 'f32'} or ts <= {'u64', 'f64'}):
+            raise Unsupported('union whose members are not scalars of one width (%s)' % ', '.join(sorted(ts)))
 
     def init_struct(self, sname, init, st, fn):
         vals = {}
@@ -1272,10 +1355,17 @@ class Translator:
         uses_events = False
         if fn.rett != 'unit': fn.result.append(('ret', fn.rett))
         bufparam = None
+        has_item = any(self.is_item_param(p) for p in fn.params)
         for p in fn.params:
             t = ctype(p['type']); n = p['name']
             q = p['type'].get('qualType', '')
-            if t == 'ptr':
+            if t == 'ptr' and has_item and not ('const' in q or q == 'cbor_data'):
+                # a writable byte pointer next to an item: the only supported use is `item->data = p` (+ reading through p): the parameter
+                # is the byte sequence p points to; a store through it is outside the subset (it is not a store buffer)
+                lparams.append('(%s : Array UInt8)' % n)
+                hv = V(n, 'ptr', base=n, off='0'); hv.handle = n
+                st.vars[n] = hv; sigparams.append((n, 'hptr'))
+            elif t == 'ptr':
                 lparams.append('(%s : Array UInt8) (%s_off : Nat)' % (n, n))
                 st.vars[n] = V(n, 'ptr', base=n, off='%s_off' % n)
                 sigparams.append((n, 'ptr'))
@@ -1397,6 +1487,13 @@ ACC_JOBS = [
     ('src/cbor/bytestrings.c', ['cbor_bytestring_is_definite', 'cbor_bytestring_is_indefinite', 'cbor_bytestring_length']),
     ('src/cbor/tags.c', ['cbor_tag_value']),
 ]
+# float accessors and handle setters: a second module `Accessors2` (imports Accessors and Unicode), so that Accessors.lean keeps its text
+ACC2_JOBS = [
+    ('src/cbor/floats_ctrls.c', ['cbor_float_get_float2', 'cbor_float_get_float4', 'cbor_float_get_float8', 'cbor_float_get_float',
+                                 'cbor_set_float2', 'cbor_set_float4', 'cbor_set_float8']),
+    ('src/cbor/strings.c', ['cbor_string_set_handle']),
+    ('src/cbor/bytestrings.c', ['cbor_bytestring_set_handle']),
+]
 IMPORTS = {'Encoding': ['Encoders'], 'Streaming': ['Loaders', 'Types'], 'Loaders': [], 'Encoders': [],
            'MemoryUtils': [], 'Unicode': ['Types'], 'HeaderSize': []}
 
@@ -1499,6 +1596,28 @@ def generate(repo, outdir, cfgdir):
     chunks += T.out
     chunks.append('end Gen\n')
     files['Accessors.lean'] = '\n'.join(chunks)
+    # float getters / setters (float, double = IEEE-754 bit patterns) and the handle setters of (byte) strings
+    T.out = []
+    acc2_files = []
+    for f, _ in ACC2_JOBS:
+        if f not in acc2_files: acc2_files.append(f)
+    chunks = [HEADER % ', '.join(acc2_files + ['src/cbor/data.h']),
+              PRELUDE_IMPORTS + 'import Cbor.Gen.Types\nimport Cbor.Gen.Unicode\nimport Cbor.Gen.Accessors\n',
+              'set_option linter.unusedVariables false\nset_option maxRecDepth 4096\nnamespace Gen\n']
+    for cfile, names in ACC2_JOBS:
+        for n in names:
+            if n not in fnsets[cfile]: raise Unsupported('%s: no definition of %s' % (cfile, n))
+            n0 = len(T.out)
+            try:
+                T.function(fnsets[cfile][n])
+                report['functions'].append(n)
+            except Unsupported as ex:
+                del T.out[n0:]; T.sigs.pop(n, None)          # a stub, as for the accessors above: only the checks that use it fail
+                report['failed'].append('%s: %s: %s' % (cfile, n, ex))
+                T.out.append(T.stub(fnsets[cfile][n], str(ex)))
+    chunks += T.out
+    chunks.append('end Gen\n')
+    files['Accessors2.lean'] = '\n'.join(chunks)
     return files, report
 
 
